@@ -195,6 +195,29 @@ func c07Cases() []c07Case {
 				}
 				return first(eq("target", i.Target, c07IP6[0]), eq("source link-layer option", net.HardwareAddr(i.OptSLLA), net.HardwareAddr(env.HostMAC)), eq("dst", i.DstIP, c07IP6[ii]))
 			})
+			// neighbour discovery from a source address that is not link-local (a global address, the unspecified address
+			// of duplicate address detection): the hop limit rule follows the destination
+			for si, src6 := range []netip.Addr{netip.MustParseAddr("2001:db8::99"), netip.IPv6Unspecified()} {
+				si, src6 := si, src6
+				add("ICMP6SendNeighbourSolicitation(other source)", []int{mi, ii, si}, func(x *c07Objs) error {
+					return x.s.ICMP6SendNeighbourSolicitation(packet.Addr{MAC: env.HostMAC, IP: src6}, dst6(mi, ii), c07IP6[0])
+				}, func(x *c07Objs, f []refnet.SentInfo, raw [][]byte) string {
+					i, e := one(f, "ns")
+					if e != "" {
+						return e
+					}
+					return first(eq("target", i.Target, c07IP6[0]), eq("src", i.SrcIP, src6), eq("dst", i.DstIP, c07IP6[ii]))
+				})
+				add("ICMP6SendNeighborAdvertisement(other source)", []int{mi, ii, si}, func(x *c07Objs) error {
+					return x.s.ICMP6SendNeighborAdvertisement(packet.Addr{MAC: env.HostMAC, IP: src6}, dst6(mi, ii), packet.Addr{MAC: env.HostMAC, IP: env.RouterLLA})
+				}, func(x *c07Objs, f []refnet.SentInfo, raw [][]byte) string {
+					i, e := one(f, "na")
+					if e != "" {
+						return e
+					}
+					return first(eq("target", i.Target, env.RouterLLA), eq("src", i.SrcIP, src6), eq("dst", i.DstIP, c07IP6[ii]))
+				})
+			}
 			add("ICMP6SendNeighborAdvertisement", []int{mi, ii}, func(x *c07Objs) error {
 				return x.s.ICMP6SendNeighborAdvertisement(packet.Addr{MAC: env.HostMAC, IP: env.HostLLA}, dst6(mi, ii), packet.Addr{MAC: env.HostMAC, IP: env.RouterLLA})
 			}, func(x *c07Objs, f []refnet.SentInfo, raw [][]byte) string {
